@@ -145,6 +145,9 @@ func writeExpr(b *strings.Builder, x ast.Expr) {
 	case *ast.StarExpr:
 		b.WriteString("*")
 		writeExpr(b, n.X)
+	case *ast.ArrayType:
+		b.WriteString("[]")
+		writeExpr(b, n.Elt)
 	case *ast.SliceExpr:
 		writeExpr(b, n.X)
 		b.WriteString("[:]")
@@ -604,6 +607,40 @@ func (e *Enc) evalExpr(x ast.Expr, env *Env) Val {
 		return e.bad("unsupported slice base", x)
 	case *ast.CallExpr:
 		return e.evalCall(n, env)
+	case *ast.TypeAssertExpr:
+		// x.(T) in a contract: the dynamic value of interface x viewed as T (meaningful where dyntype(x) is T)
+		a := e.evalExpr(n.X, env)
+		if a.Bad || a.T == nil || len(a.L) != 3 {
+			return e.bad("type assertion on non-interface", x)
+		}
+		t := e.resolveType(env.pkg, exprString(n.Type))
+		if t == nil {
+			return e.bad("type assertion to unknown type", x)
+		}
+		if _, isPtr := t.Underlying().(*types.Pointer); isPtr {
+			return Val{T: t, L: []string{a.L[1], a.L[2]}}
+		}
+		ls, ok := m.leafSorts(t)
+		if !ok {
+			return e.bad("type assertion to unrepresentable type", x)
+		}
+		bn := e.boxName(t)
+		var sorts []string
+		for _, so := range ls {
+			sorts = append(sorts, m.smtSort(so))
+		}
+		I := m.smtSort(SI)
+		var decl strings.Builder
+		fmt.Fprintf(&decl, "(declare-fun %s (%s) %s)\n", bn, strings.Join(sorts, " "), I)
+		for i, so := range sorts {
+			fmt.Fprintf(&decl, "(declare-fun un%s_%d (%s) %s)\n", bn, i, I, so)
+		}
+		e.prelude(bn, decl.String())
+		out := Val{T: t}
+		for i := range ls {
+			out.L = append(out.L, fmt.Sprintf("(un%s_%d %s)", bn, i, a.L[1]))
+		}
+		return out
 	}
 	return e.bad("unsupported expression", x)
 }
